@@ -2,30 +2,35 @@ import Bt.Proofs.Program
 import Bt.Proofs.ProgramEx
 import Bt.Props.C09
 import Bt.Driver.Program
-/-! C09 for whole programs — **the shadow copy of a program is the stand-alone backtest of that program**.
+/-! C09 for whole programs — **the shadow copy of a program is the stand-alone backtest of that program, for EVERY
+    program** (calendar schedulers, counting schedulers `RunOnce` / `RunEveryNPeriods` / `RunAfterDays`, gates open on
+    any row: there is no hypothesis on the gates).
 
     `Bt.Prog.Sim` (`Bt/Algos/Program.lean`) is a running backtest: the tree, its programs, and for every
     sub-strategy (by path) the shadow copy `setup` made of it — itself a `Sim` (a backtest of the same definition on
     the same data, already funded with the code's 1 000 000; it carries its own shadow copies: papers inside
-    papers).  `simDay` steps every shadow copy with the full loop body, writes its price into the child's `paperPx`,
-    then runs the loop body on the tree itself; `simRun` is `Backtest.run()`; the model is executed end to end
-    against the real code on nested programs (protocol `whole-run`).
+    papers).  On the first date of the data nobody's algos run: `Backtest.run` only updates its tree, and
+    `StrategyBase.update` only updates a shadow copy when `inow == 0` (`simDay0`, recursively through the copies of the
+    copies).  On every later date `simDay` steps every shadow copy with the full loop body, writes its price into the
+    child's `paperPx`, then runs the loop body on the tree itself.  `simShadow (d0 :: ds)` = `simDay0 d0` then `simLoop ds`
+    is what happens to a shadow copy during its owner's run; `simRun` is `Backtest.run()`; the model is executed end to
+    end against the real code on nested programs (protocol `whole-run`).
 
-    C09 (`Bt.Props.C09`) proved the statement for an abstract `run` under the hypothesis that `run` is silent on the
-    synthetic row.  Here `run` is a program tree, the hypothesis becomes "every gate of the tree is closed on the
-    first date" (`PProg.gateClosed d0 t`, what the calendar schedulers guarantee: `calendar_gates_closed`), and the
-    chain is closed up to the parent's recorded series: (1) closed gates make `Strategy.run()` the identity;
-    (2) funding a definition and stepping it as a shadow copy is its stand-alone `simRun` — at any nesting;
-    (3) inside a parent's backtest every shadow copy evolves by its own loop only, hence ends as the stand-alone
+    The chain: (1) [facts about closed gates, no longer needed as hypotheses]; (2) funding a definition and stepping
+    it as a shadow copy is its stand-alone `simRun` — at any nesting, by the shape of the two drivers alone;
+    (3) inside a parent's backtest every shadow copy evolves by its own stepping only, hence ends as the stand-alone
     backtest of its definition; (4) the price the parent reads, shows and records for the child is that copy's
-    price.  Helper lemmas: `Bt.Proofs.Program` (namespace `Bt.PProg`). -/
+    price.  Helper lemmas: `Bt.Proofs.Program` (namespace `Bt.PProg`).
+
+    (Before the repair of `StrategyBase.update` a shadow copy was run on the first date too; (2)–(4) then carried the
+    hypotheses `gateClosed d0 t`, `NoDust`, `0 < TOL`, and were false for a sub-strategy headed by `RunOnce`.) -/
 set_option linter.unusedSectionVars false
 namespace Bt.C09
 open Bt Bt.Prog Bt.PProg
 
 variable {K : Type} [Field K] [LinearOrder K] [IsStrictOrderedRing K] [HasFloor K]
 
-/-! ### (1) closed gates -/
+/-! ### (1) closed gates (facts about `Strategy.run()`; since the repair not a hypothesis of (2)–(4)) -/
 
 /-- a stack whose scheduler answers False at row `d` leaves the tree as it is -/
 theorem progRun_gate_closed (cfg : Cfg K) (p : Prog K) (path : List Nat) (d : Nat) (w : World K)
@@ -62,7 +67,7 @@ theorem calendar_gate_closed_row0 (k : PeriodKind) (f : Flags) (s0 : Stamp) (res
 
 open Bt.Sched Bt.Cal in
 /-- … hence a tree all of whose stacks are headed by a calendar scheduler has every gate closed on the first date
-    of the data: the hypothesis `hgate` of (2)–(4) -/
+    of the data -/
 theorem calendar_gates_closed (s0 : Stamp) (rest : List Stamp) (hs : StrictInc (s0 :: rest)) (tr : ProgTree K)
     (h : AllProgs (fun p => ∃ k f, p.gate = Bt.Driver.gateOf k f (s0 :: rest)) tr) : gateClosed 0 tr = true := by
   refine gateClosed_of_allProgs tr ?_
@@ -87,16 +92,31 @@ example : simRun cfgE 1000000 [0, 1, 2, 3] simSubE =
     (Prog.backtest cfgE treeSubE 1000000 [0, 1, 2, 3] wSubE).map fun w => Sim.mk w treeSubE [] :=
   simRun_leaf_eq_backtest cfgE 1000000 treeSubE [0, 1, 2, 3] wSubE
 
-/-- **Leaf case.**  `w0`, `t`: a definition without sub-strategies after `setup` (tree and programs); every gate of
-    `t` closed on the first date `d0`; `NoDust` (C08's hypothesis, true of every fresh tree); `0 < TOL`.  Funding
-    it with `c` and stepping it as a shadow copy over the dates `d0 :: ds` — the full loop body on every date,
-    `d0` included — is the stand-alone `Backtest.run` of the same definition: the same final `Sim` or the same
-    error. -/
-theorem sim_paper_eq_standalone (cfg : Cfg K) (htol : 0 < cfg.tol) (c : K) (d0 : Nat) (ds : List Nat)
-    (w0 : World K) (t : ProgTree K) (hnd : P08.NoDust cfg w0.root) (hgate : gateClosed d0 t = true) :
-    (opAdjust w0 [] c true true).bind (fun w1 => simLoop cfg (d0 :: ds) (.mk w1 t [])) =
+/-! #### programs that act on their first call: a `RunOnce` sub-strategy under a parent, and a gate open on row 0 -/
+
+/-- `[RunOnce, SelectThese [y, x], WeighSpecified, Rebalance]`: the gate the driver computes for `RunOnce` - silent on
+    the dummy row 0 (nobody calls it there), True on the first real date, False ever after -/
+def progOnceE : Prog Rat := { progSubE with gate := [false, true, false, false] }
+def treeOnceE : ProgTree Rat := .node progOnceE [none, none]
+def simOnceE : Sim Rat := .mk wSubE treeOnceE []
+/-- the parent of `ProgramEx` with the `RunOnce` sub-strategy in place of `sub` -/
+def treeParOnceE : ProgTree Rat := .node progParE [some treeOnceE, none]
+def simParOnceE : Sim Rat := .mk wParE treeParOnceE [([0], .mk wSubF treeOnceE [])]
+/-- a definition whose gate is open on EVERY row, the dummy row 0 included -/
+def treeOpenE : ProgTree Rat := .node { progSubE with gate := [true, true, true, true] } [none, none]
+
+example : gateClosed 1 treeOnceE = false ∧ gateClosed 0 treeOpenE = false := by decide +kernel
+
+/-- **Leaf case — every program.**  `w0`, `t`: a definition without sub-strategies after `setup` (tree and programs).
+    Funding it with `c` and stepping it as a shadow copy over the dates `d0 :: ds` — updated on `d0`, the full loop body
+    on every later date — is the stand-alone `Backtest.run` of the same definition: the same final `Sim` or the same
+    error.  No hypothesis on the gates (`RunOnce`, `RunEveryNPeriods`, `RunAfterDays`, a gate open on `d0`: all covered),
+    none on the tree, none on `TOL`. -/
+theorem sim_paper_eq_standalone (cfg : Cfg K) (c : K) (d0 : Nat) (ds : List Nat)
+    (w0 : World K) (t : ProgTree K) :
+    (opAdjust w0 [] c true true).bind (fun w1 => simShadow cfg (d0 :: ds) (.mk w1 t [])) =
       simRun cfg c (d0 :: ds) (.mk w0 t []) :=
-  simLoop_funded_eq_simRun htol c d0 ds w0 t [] hnd hgate
+  simShadow_funded_eq_simRun c d0 ds w0 t []
 
 theorem wSubE_noDust : P08.NoDust cfgE wSubE.root := by
   simp only [wSubE, P08.noDust_strat, P08.noDust_sec, P08.NoDustL]
@@ -104,7 +124,7 @@ theorem wSubE_noDust : P08.NoDust cfgE wSubE.root := by
 
 /-- the sub-strategy's definition: shadow copy and stand-alone backtest end in the same state; the index is
     100, 100, 98.75, 108.75 -/
-example : ∃ S', simLoop cfgE [0, 1, 2, 3] (.mk wSubF treeSubE []) = .ok S' ∧
+example : ∃ S', simShadow cfgE [0, 1, 2, 3] (.mk wSubF treeSubE []) = .ok S' ∧
     simRun cfgE 1000000 [0, 1, 2, 3] simSubE = .ok S' ∧ S'.world.price = 435 / 4 ∧
     rPriceAt S'.world [] = [100, 100, 395 / 4, 435 / 4] := by
   have h1 : (simRun cfgE 1000000 [0, 1, 2, 3] simSubE).toOption.map
@@ -113,21 +133,43 @@ example : ∃ S', simLoop cfgE [0, 1, 2, 3] (.mk wSubF treeSubE []) = .ok S' ∧
   obtain ⟨S', hS, hv⟩ := P16.exists_of_toOption_map h1
   simp only [Prod.mk.injEq] at hv
   refine ⟨S', ?_, hS, hv.1, hv.2⟩
-  have e := sim_paper_eq_standalone cfgE (by decide +kernel) 1000000 0 [1, 2, 3] wSubE treeSubE wSubE_noDust
-    (by decide +kernel)
+  have e := sim_paper_eq_standalone cfgE 1000000 0 [1, 2, 3] wSubE treeSubE
   rw [wSubF_funded, P08.bind_ok] at e
   exact e.trans hS
 
-/-- **Any nesting** (papers inside papers).  The same with the definition carrying its own shadow copies `papers`
-    (arbitrary `Sim`s at arbitrary paths, themselves nested to any depth): they are stepped identically on both
-    sides, so no hypothesis on them is needed; the hypotheses concern the definition's own tree only.  Each of the
+/-- **a `RunOnce` definition** (gate open on the first real date, closed afterwards): its shadow copy and its
+    stand-alone backtest end in the same state - it trades once, on row 1, in both; index 100, 100, 98.75, 108.75 -/
+example : ∃ S', simShadow cfgE [0, 1, 2, 3] (.mk wSubF treeOnceE []) = .ok S' ∧
+    simRun cfgE 1000000 [0, 1, 2, 3] simOnceE = .ok S' ∧
+    rPriceAt S'.world [] = [100, 100, 395 / 4, 435 / 4] := by
+  have h1 : (simRun cfgE 1000000 [0, 1, 2, 3] simOnceE).toOption.map
+      (fun S => rPriceAt S.world []) = some [100, 100, 395 / 4, 435 / 4] := by
+    decide +kernel
+  obtain ⟨S', hS, hv⟩ := P16.exists_of_toOption_map h1
+  refine ⟨S', ?_, hS, hv⟩
+  have e := sim_paper_eq_standalone cfgE 1000000 0 [1, 2, 3] wSubE treeOnceE
+  rw [wSubF_funded, P08.bind_ok] at e
+  exact e.trans hS
+
+/-- **a gate open on the dummy row itself**: still the same `Except` value on both sides - nobody runs on row 0,
+    neither in the shadow copy nor in the stand-alone backtest (the statement needs no evaluation at all) -/
+example : (opAdjust wSubE [] 1000000 true true).bind (fun w1 => simShadow cfgE [0, 1, 2, 3] (.mk w1 treeOpenE [])) =
+    simRun cfgE 1000000 [0, 1, 2, 3] (.mk wSubE treeOpenE []) :=
+  sim_paper_eq_standalone cfgE 1000000 0 [1, 2, 3] wSubE treeOpenE
+
+/-- **Any nesting** (papers inside papers), **every program**.  The same with the definition carrying its own shadow
+    copies `papers` (arbitrary `Sim`s at arbitrary paths, themselves nested to any depth): they are stepped identically
+    on both sides, so no hypothesis on them is needed - and none on the definition's own tree either.  Each of the
     inner copies is in turn covered by this theorem (and `sim_shadow_is_standalone`) one level down. -/
-theorem sim_paper_eq_standalone_nested (cfg : Cfg K) (htol : 0 < cfg.tol) (c : K) (d0 : Nat) (ds : List Nat)
-    (w0 : World K) (t : ProgTree K) (papers : List (List Nat × Sim K)) (hnd : P08.NoDust cfg w0.root)
-    (hgate : gateClosed d0 t = true) :
-    (opAdjust w0 [] c true true).bind (fun w1 => simLoop cfg (d0 :: ds) (.mk w1 t papers)) =
+theorem sim_paper_eq_standalone_nested (cfg : Cfg K) (c : K) (d0 : Nat) (ds : List Nat)
+    (w0 : World K) (t : ProgTree K) (papers : List (List Nat × Sim K)) :
+    (opAdjust w0 [] c true true).bind (fun w1 => simShadow cfg (d0 :: ds) (.mk w1 t papers)) =
       simRun cfg c (d0 :: ds) (.mk w0 t papers) :=
-  simLoop_funded_eq_simRun htol c d0 ds w0 t papers hnd hgate
+  simShadow_funded_eq_simRun c d0 ds w0 t papers
+
+/-- what `simShadow` is: an update of the tree and of all its shadow copies on the first date, the loop after -/
+theorem simShadow_unfold (cfg : Cfg K) (d0 : Nat) (ds : List Nat) (s : Sim K) :
+    simShadow cfg (d0 :: ds) s = (simDay0 cfg d0 s).bind (simLoop cfg ds) := rfl
 
 theorem wParE_noDust : P08.NoDust cfgE wParE.root := by
   simp only [wParE, P08.noDust_strat, P08.noDust_sec, P08.NoDustL]
@@ -135,11 +177,24 @@ theorem wParE_noDust : P08.NoDust cfgE wParE.root := by
 
 /-- the parent definition (with the shadow copy of `sub` inside) used itself as somebody's shadow copy -/
 example : (opAdjust wParE [] 1000 true true).bind
-      (fun w1 => simLoop cfgE [0, 1, 2, 3] (.mk w1 treeParE [([0], .mk wSubF treeSubE [])])) =
+      (fun w1 => simShadow cfgE [0, 1, 2, 3] (.mk w1 treeParE [([0], .mk wSubF treeSubE [])])) =
     simRun cfgE 1000 [0, 1, 2, 3] simParE ∧
     (simRun cfgE 1000 [0, 1, 2, 3] simParE).toOption.map (·.world.price) = some (875 / 8) :=
-  ⟨sim_paper_eq_standalone_nested cfgE (by decide +kernel) 1000 0 [1, 2, 3] wParE treeParE _ wParE_noDust
-    (by decide +kernel), by decide +kernel⟩
+  ⟨sim_paper_eq_standalone_nested cfgE 1000 0 [1, 2, 3] wParE treeParE _, by decide +kernel⟩
+
+/-- **`simShadow` is the run-level stepping of `Bt.Props.C09`.**  `simRun` / `simShadow` take "the first date" structurally
+    (the head of the date list), the code and `paperDay` test the row index (`inow == 0`).  For dates `0 :: ds` with row 0
+    never again the two coincide: the shadow copy of a leaf definition is `paperLoop` (= `paperUpdates` over any call
+    sequence with these clock dates, `C09.paperUpdates_eq_clock`) of its program's `Strategy.run()`. -/
+theorem simShadow_leaf_eq_paperLoop (cfg : Cfg K) (t : ProgTree K) (ds : List Nat) (w : World K)
+    (hpos : ∀ d ∈ ds, d ≠ 0) :
+    simShadow cfg (0 :: ds) (.mk w t []) =
+      (paperLoop cfg (treeRun cfg t []) (0 :: ds) w).map fun w2 => Sim.mk w2 t [] :=
+  simShadow_leaf t ds w hpos
+
+example : simShadow cfgE [0, 1, 2, 3] (.mk wSubF treeOnceE []) =
+    (paperLoop cfgE (treeRun cfgE treeOnceE []) [0, 1, 2, 3] wSubF).map fun w2 => Sim.mk w2 treeOnceE [] :=
+  simShadow_leaf_eq_paperLoop cfgE treeOnceE [1, 2, 3] wSubF (by decide)
 
 /-- the stand-alone run over a prefix of the dates is the state the whole run passes through (date for date) -/
 theorem simRun_prefix (cfg : Cfg K) (c : K) (d0 : Nat) (ds1 ds2 : List Nat) (s : Sim K) :
@@ -152,31 +207,30 @@ example : simRun cfgE 1000 [0, 1, 2, 3] simParE = (simRun cfgE 1000 [0, 1, 2] si
 /-! ### (3) inside a parent's backtest every shadow copy is the stand-alone backtest of its definition -/
 
 /-- whatever the parent's tree, programs, capital and trades are, each of its shadow copies is stepped by its own
-    loop over all the dates (the first included), and keeps its path -/
+    `simShadow` over all the dates (updated on the first, the loop body on the others), and keeps its path -/
 theorem sim_papers_independent (cfg : Cfg K) (C : K) (d0 : Nat) (ds : List Nat) (W : World K) (T : ProgTree K)
     (ps : List (List Nat × Sim K)) (S' : Sim K) (h : simRun cfg C (d0 :: ds) (.mk W T ps) = .ok S') :
     ∃ W' ps', S' = .mk W' T ps' ∧
-      List.Forall₂ (fun a b => a.1 = b.1 ∧ simLoop cfg (d0 :: ds) a.2 = .ok b.2) ps ps' :=
+      List.Forall₂ (fun a b => a.1 = b.1 ∧ simShadow cfg (d0 :: ds) a.2 = .ok b.2) ps ps' :=
   simRun_papers h
 
-/-- **Main theorem.**  A parent's complete backtest (`simRun`, any capital `C`) over the dates `d0 :: ds` succeeds
-    with final state `S'`.  Take any of its shadow copies `(q, .mk w1 t qs)` that is the funded copy
-    (`opAdjust w0 [] c true true = .ok w1`; the code uses `c = 1 000 000`) of a definition `w0`, `t`, `qs` whose
-    gates are all closed on `d0` (calendar schedulers) and whose tree is dust-free.  Then the final state of that
-    shadow copy inside `S'` is exactly the result of the stand-alone `Backtest.run` of the definition over the same
-    dates.  Nothing is assumed about the parent or about the inner copies `qs`. -/
-theorem sim_shadow_is_standalone (cfg : Cfg K) (htol : 0 < cfg.tol) (C c : K) (d0 : Nat) (ds : List Nat)
+/-- **Main theorem — every program.**  A parent's complete backtest (`simRun`, any capital `C`) over the dates
+    `d0 :: ds` succeeds with final state `S'`.  Take any of its shadow copies `(q, .mk w1 t qs)` that is the funded copy
+    (`opAdjust w0 [] c true true = .ok w1`; the code uses `c = 1 000 000`) of a definition `w0`, `t`, `qs`.
+    Then the final state of that shadow copy inside `S'` is exactly the result of the stand-alone `Backtest.run` of the
+    definition over the same dates.  Nothing is assumed about the definition (any gates: `RunOnce`, `RunEveryNPeriods`,
+    `RunAfterDays` included; any tree), about the parent or about the inner copies `qs`. -/
+theorem sim_shadow_is_standalone (cfg : Cfg K) (C c : K) (d0 : Nat) (ds : List Nat)
     (W : World K) (T : ProgTree K) (ps : List (List Nat × Sim K)) (S' : Sim K)
     (h : simRun cfg C (d0 :: ds) (.mk W T ps) = .ok S')
     (q : List Nat) (w0 w1 : World K) (t : ProgTree K) (qs : List (List Nat × Sim K))
-    (hmem : (q, Sim.mk w1 t qs) ∈ ps) (hfund : opAdjust w0 [] c true true = .ok w1)
-    (hnd : P08.NoDust cfg w0.root) (hgate : gateClosed d0 t = true) :
+    (hmem : (q, Sim.mk w1 t qs) ∈ ps) (hfund : opAdjust w0 [] c true true = .ok w1) :
     ∃ W' ps' s', S' = .mk W' T ps' ∧ (q, s') ∈ ps' ∧ simRun cfg c (d0 :: ds) (.mk w0 t qs) = .ok s' := by
   obtain ⟨W', ps', rfl, f⟩ := simRun_papers h
   obtain ⟨⟨q', s'⟩, hb, hq, hl⟩ := forall₂_mem_left f _ hmem
   cases hq
   refine ⟨W', ps', s', rfl, hb, ?_⟩
-  rw [← simLoop_funded_eq_simRun htol c d0 ds w0 t qs hnd hgate, hfund, P08.bind_ok]
+  rw [← simShadow_funded_eq_simRun c d0 ds w0 t qs, hfund, P08.bind_ok]
   exact hl
 
 /-- the parent `simParE` (1000 of capital) and its shadow copy of `sub` (funded with 1 000 000): after the parent's
@@ -188,9 +242,8 @@ example : ∃ W' ps' s', simRun cfgE 1000 [0, 1, 2, 3] simParE = .ok (.mk W' tre
   have h2 : (simRun cfgE 1000000 [0, 1, 2, 3] simSubE).toOption.map (·.world.price) = some (435 / 4) := by
     decide +kernel
   obtain ⟨S', hS, -⟩ := P16.exists_of_toOption_map h1
-  obtain ⟨W', ps', s', rfl, hm, hs⟩ := sim_shadow_is_standalone cfgE (by decide +kernel) 1000 1000000 0 [1, 2, 3]
-    wParE treeParE _ S' hS [0] wSubE wSubF treeSubE [] (List.mem_singleton.2 rfl) wSubF_funded wSubE_noDust
-    (by decide +kernel)
+  obtain ⟨W', ps', s', rfl, hm, hs⟩ := sim_shadow_is_standalone cfgE 1000 1000000 0 [1, 2, 3]
+    wParE treeParE _ S' hS [0] wSubE wSubF treeSubE [] (List.mem_singleton.2 rfl) wSubF_funded
   obtain ⟨s2, hs2, hv⟩ := P16.exists_of_toOption_map h2
   have hs' : simRun cfgE 1000000 [0, 1, 2, 3] simSubE = .ok s' := hs
   rw [hs'] at hs2
@@ -234,28 +287,44 @@ theorem sim_child_price (cfg : Cfg K) (d : Nat) (w : World K) (t : ProgTree K) (
   obtain ⟨sd', kk', g1, -, g3, g4, g5⟩ := hp q s' hm (paperT_iff.2 ⟨sd, kk, hg, hpt⟩)
   exact ⟨sd', kk', g1, g4, g3, g5⟩
 
-/-- **Whole backtest: the sub-strategy's index is the stand-alone index.**  Setting of `sim_shadow_is_standalone`,
-    the paths of the parent's shadow copies distinct, the strategy at `q` in the parent's tree paper-traded.  After
-    the parent's backtest over `d0 :: ds` the strategy at `q` shows as its price, and has recorded at the last date,
-    the final price of the stand-alone backtest of its definition over the same dates.  (For the other dates apply
-    the theorem to the prefixes of `d0 :: ds`: `simRun_prefix`.) -/
-theorem sim_child_index_eq_standalone (cfg : Cfg K) (htol : 0 < cfg.tol) (C c : K) (d0 : Nat) (ds : List Nat)
+/-- **Whole backtest: the sub-strategy's index is the stand-alone index — every program.**  Setting of
+    `sim_shadow_is_standalone`, the paths of the parent's shadow copies distinct, the strategy at `q` in the parent's tree
+    paper-traded.  After the parent's backtest over `d0 :: ds` the strategy at `q` shows as its price, and has recorded at
+    the last date, the final price of the stand-alone backtest of its definition over the same dates.  (For the other
+    dates apply the theorem to the prefixes of `d0 :: ds`: `simRun_prefix`.)  No hypothesis on the gates of the
+    sub-strategy's definition. -/
+theorem sim_child_index_eq_standalone (cfg : Cfg K) (C c : K) (d0 : Nat) (ds : List Nat)
     (W : World K) (T : ProgTree K) (ps : List (List Nat × Sim K)) (S' : Sim K)
     (h : simRun cfg C (d0 :: ds) (.mk W T ps) = .ok S') (hnodup : (ps.map (·.1)).Nodup)
     (q : List Nat) (w0 w1 : World K) (t : ProgTree K) (qs : List (List Nat × Sim K))
     (hmem : (q, Sim.mk w1 t qs) ∈ ps) (hfund : opAdjust w0 [] c true true = .ok w1)
-    (hnd : P08.NoDust cfg w0.root) (hgate : gateClosed d0 t = true)
     (sd : StratData K) (kk : List (Node K)) (hq : W.root.get? q = some (.strat sd kk))
     (hpt : sd.paperTrade = true) :
     ∃ W' ps' s', S' = .mk W' T ps' ∧ simRun cfg c (d0 :: ds) (.mk w0 t qs) = .ok s' ∧
       ∃ sd' kk', W'.root.get? q = some (.strat sd' kk') ∧ sd'.price = s'.world.price ∧
         (ds.getLastD d0 < sd'.rPrice.length → sd'.rPrice[ds.getLastD d0]? = some s'.world.price) := by
   obtain ⟨W', ps', s', rfl, hm, hs⟩ :=
-    sim_shadow_is_standalone cfg htol C c d0 ds W T ps S' h q w0 w1 t qs hmem hfund hnd hgate
+    sim_shadow_is_standalone cfg C c d0 ds W T ps S' h q w0 w1 t qs hmem hfund
   obtain ⟨W2, ps2, e, hp⟩ := simRun_child_price h hnodup
   cases e
   obtain ⟨sd', kk', g1, -, -, g4, g5⟩ := hp q s' hm (paperT_iff.2 ⟨sd, kk, hq, hpt⟩)
   exact ⟨W', ps', s', rfl, hs, sd', kk', g1, g4, g5⟩
+
+/-- **a `RunOnce` sub-strategy under a parent**: the theorem applies (no gate hypothesis), and evaluated: the price
+    series the parent records for the child is the stand-alone index of the `RunOnce` definition, date for date -
+    the child did trade (on row 1), its index moves: 100, 100, 98.75, 108.75 -/
+example (S' : Sim Rat) (h : simRun cfgE 1000 (0 :: [1, 2, 3]) simParOnceE = .ok S') :
+    ∃ W' ps' s', S' = .mk W' treeParOnceE ps' ∧ simRun cfgE 1000000 (0 :: [1, 2, 3]) simOnceE = .ok s' ∧
+      ∃ sd' kk', W'.root.get? [0] = some (.strat sd' kk') ∧ sd'.price = s'.world.price ∧
+        (3 < sd'.rPrice.length → sd'.rPrice[3]? = some s'.world.price) :=
+  sim_child_index_eq_standalone cfgE 1000 1000000 0 [1, 2, 3] wParE treeParOnceE _ S' h (by decide) [0] wSubE wSubF
+    treeOnceE [] (List.mem_singleton.2 rfl) wSubF_funded (stratE "sub" true) [.sec xE, .sec yE] rfl rfl
+
+example : (simRun cfgE 1000 [0, 1, 2, 3] simParOnceE).toOption.map (fun S => rPriceAt S.world [0]) =
+      (simRun cfgE 1000000 [0, 1, 2, 3] simOnceE).toOption.map (fun S => rPriceAt S.world []) ∧
+    (simRun cfgE 1000000 [0, 1, 2, 3] simOnceE).toOption.map (fun S => rPriceAt S.world []) =
+      some [100, 100, 395 / 4, 435 / 4] := by
+  decide +kernel
 
 /-- the parent `simParE` over the prefixes `[0,1,2]` and `[0,1,2,3]` of the dates: the price series recorded for the
     child `sub` is 100, 100, 98.75, 108.75 — the stand-alone index of `sub`'s definition, date for date — while the
